@@ -29,6 +29,8 @@ impl<'a, R: Read> Parser<Lexer<Scanner<'a, R>>> {
     /// Parses a Haystack [Value](crate::val::Value) form the provided [Read](std::io::Read)
     /// stream.
     pub fn parse_value(&mut self) -> Result<Value, Error> {
+        #[cfg(feature = "verif-hooks")]
+        crate::verif_hooks::tick("zinc::Parser::parse_value");
         match &self.lexer.cur.value {
             Some(value) => match value {
                 // Possible Grid ver
